@@ -1020,8 +1020,10 @@ func (index *fkDeleteCascadeConstraint) ProcessAfterUpdate(*IndexingContext) {
 
 func (index *fkDeleteCascadeConstraint) ProcessBeforeDelete(ctx *IndexingContext) {
 	if !ctx.ErrHolder.HasError() {
-		filter, err := ast.Parse(index.symbol.GetStore(), fmt.Sprintf(`%v = "%v"`, index.symbol.GetName(), string(ctx.RowId)))
-		if ctx.ErrHolder.SetError(err) {
+		// build the predicate `symbol in [id]` directly instead of through filter text, so that an id containing
+		// quotes, backslashes or filter keywords is compared as the id it is and never re-parsed as filter syntax
+		var filter ast.BoolNode = ast.NewInArrayExprNode(ast.NewUntypedSymbolNode(index.symbol.GetName()), ast.NewStringArrayNode([]string{string(ctx.RowId)}))
+		if ctx.ErrHolder.SetError(ast.PostProcess(index.symbol.GetStore(), &filter)) {
 			return
 		}
 
